@@ -54,6 +54,10 @@ type G struct {
 	feat map[string]bool
 	L    *Layout
 	uid  int
+	// focus is the layout's focus attribute: it is written, with fresh draws, on every service in every file
+	// (main, overrides, bases), so that one attribute's merge / transform / decode rules meet many
+	// spellings in one load; the focus rotates over all attributes from run to run
+	focus string
 }
 
 func (g *G) n(label string, n int) int { return g.R.Draw(label, n) }
@@ -579,6 +583,8 @@ func (g *G) attr(a string, c *svcCtx) *Y {
 	return nil
 }
 
+var uniqueLists = map[string]bool{"group_add": true, "device_cgroup_rules": true, "security_opt": true, "external_links": true, "volumes_from": true, "links": true}
+
 var svcAttrs = []string{"command", "entrypoint", "environment", "labels", "annotations", "env_file", "label_file", "ports", "expose", "volumes",
 	"networks", "depends_on", "deploy", "healthcheck", "logging", "ulimits", "sysctls", "extra_hosts", "dns", "dns_search", "tmpfs", "cap_add",
 	"cap_drop", "security_opt", "device_cgroup_rules", "external_links", "group_add", "secrets", "configs", "profiles", "devices", "develop",
@@ -608,7 +614,7 @@ func (g *G) service(c *svcCtx, density int, needImage bool) *Y {
 		}
 	}
 	for _, a := range svcAttrs {
-		if !g.chance("attr:"+a, density, 100) {
+		if !g.chance("attr:"+a, density, 100) && a != g.focus {
 			continue
 		}
 		if a == "x-ext" {
@@ -829,6 +835,19 @@ func GenLayoutForced(r *zsimrt.Run, forced map[string]bool) *Layout {
 		c.lblFiles = append(c.lblFiles, p)
 	}
 	density := []int{4, 10, 25}[g.n("density", 3)]
+	stress := forced["stress"]
+	if stress {
+		density = 4
+	}
+	if stress || g.chance("has-focus", 2, 3) {
+		for {
+			g.focus = svcAttrs[g.n("focus", len(svcAttrs))]
+			if !uniqueLists[g.focus] && g.focus != "x-ext" && g.focus != "network_mode" && g.focus != "scale" && g.focus != "container_name" {
+				break
+			}
+		}
+		L.Features = append(L.Features, "focus:"+g.focus)
+	}
 	doc := Map()
 	if g.on("version") {
 		doc.Set("version", Str(g.pick("version", []string{"3.8", "2.4", "3"})))
@@ -844,6 +863,9 @@ func GenLayoutForced(r *zsimrt.Run, forced map[string]bool) *Layout {
 		doc.Set("x-common", common)
 	}
 	nsvc := 1 + g.n("nsvc", 5)
+	if stress {
+		nsvc = 3 + g.n("nsvc-stress", 3)
+	}
 	svcs := Map()
 	var names []string
 	for i := 0; i < nsvc; i++ {
@@ -886,11 +908,14 @@ func GenLayoutForced(r *zsimrt.Run, forced map[string]bool) *Layout {
 	docs := []*Y{doc}
 	if g.on("override") {
 		nov := 1 + g.n("nov", 2)
+		if stress {
+			nov = 2 + g.n("nov-stress", 2)
+		}
 		for k := 0; k < nov; k++ {
 			ov := Map()
 			osv := Map()
 			for i, n := range names {
-				if !g.chance("ov-svc", 1, 2) {
+				if !stress && !g.chance("ov-svc", 1, 2) {
 					continue
 				}
 				cc := *c
@@ -898,6 +923,21 @@ func GenLayoutForced(r *zsimrt.Run, forced map[string]bool) *Layout {
 				cc.others = append([]string(nil), names[:i]...)
 				o := g.service(&cc, density, false)
 				base := svcs.Get(n)
+				// an override is most interesting where it meets something: re-generate (with new draws, so
+				// usually in another spelling and with other values) a third of the attributes the service has
+				for _, k := range base.Keys {
+					if k == "image" || k == "build" || k == "<<" || k == "extends" || strings.HasPrefix(k, "x-") || o.Get(k) != nil {
+						continue
+					}
+					if uniqueLists[k] {
+						continue // appended lists with a "unique items" schema rule: a second draw mostly just collides
+					}
+					if g.chance("ov-same-attr", 1, 3) || k == g.focus {
+						if v := g.attr(k, &cc); v != nil {
+							o.Set(k, v)
+						}
+					}
+				}
 				// keep exclusions coherent with the base
 				if base.Get("network_mode") != nil {
 					o.Del("networks")
